@@ -37,7 +37,7 @@ fn lines_of(s: &Sexp) -> Vec<(i64, String)> {
 }
 
 fn mapfile_text(lines: &[(i64, String)]) -> String {
-    let mut t = String::from("!eclmap\n!ins_signatures\n1001 S\n1002 SS\n1003 SSS\n");
+    let mut t = String::from("!eclmap\n!ins_signatures\n1001 S\n1002 SS\n1003 SSS\n1004 f\n1005 ff\n");
     if !lines.is_empty() {
         t.push_str("!difficulty_flags\n");
         for (i, s) in lines { t.push_str(&format!("{i} {s}\n")); }
@@ -297,6 +297,49 @@ fn swspec_case(lines: &Sexp, label: &Sexp, args: &[Sexp]) -> Sexp {
     Sexp::app("pass", vec![Sexp::int(copies.len() as i64)])
 }
 
+/// float switch cases, compared bit for bit: `ins_1004((a : b : c : d))` / `ins_1005(x, (a : b : ..))`
+/// where cases are float bit patterns or `_`.  Values that are equal as floats but not as bits
+/// (0.0 / -0.0) in neighbouring cases are the point: each difficulty must get ITS case's bits.
+fn swfloat_case(lines: &Sexp, label: &Sexp, lead: Option<u32>, cases: &[Sexp]) -> Sexp {
+    let lines = lines_of(lines);
+    let ftext = |b: u32| { let x = f32::from_bits(b); let mut t = format!("{:?}", x.abs()); if !t.contains('.') && !t.contains('e') { t.push_str(".0"); } if x.is_sign_negative() { format!("-{t}") } else { t } };
+    let sw: Vec<String> = cases.iter().map(|c| match c { Sexp::Atom(a) if a == "_" => String::new(), c => ftext(c.as_i64() as u32) }).collect();
+    let (op, args) = match lead { Some(b) => (1005, format!("{}, ({})", ftext(b), sw.join(" : "))), None => (1004, format!("({})", sw.join(" : "))) };
+    let src = format!("void Sub0() {{\n    {}ins_{op}({args});\n}}\n", label_prefix(label));
+    let o = with_table(&lines, |truth| {
+        let script = truth.parse::<ast::ScriptFile>("<input>", src.as_bytes())?.value;
+        let compiled = tc::compile_ast(truth, Format::Ecl, GAME, &script)?;
+        let ctx = truth.ctx();
+        let aux = ctx.diff_flag_defs.aux_bits().mask() as u8;
+        let mask = match label {
+            Sexp::Atom(s) if s == "none" => 0xFFu8,
+            l => match ctx.diff_flag_defs.parse_diff_string(sp!(l.as_atom())) { Ok(m) => m.value.mask() as u8, Err(_) => 0 },
+        };
+        Ok((sub0(&compiled), aux, mask))
+    });
+    let Some((instrs, aux, mask)) = o.value else { return Sexp::app("skip", vec![Sexp::str(diag_class(&o.diagnostics))]); };
+    let copies: Vec<&RawInstr> = instrs.iter().filter(|i| i.opcode == op).collect();
+    let n = cases.len();
+    let sig = "diff-switch-wrong-copy-for-difficulty";
+    let flat = src.replace('\n', " ");
+    for j in 0..8usize {
+        if aux & (1 << j) != 0 { continue; }
+        let with_bit: Vec<&&RawInstr> = copies.iter().filter(|c| c.difficulty & (1 << j) != 0).collect();
+        if j < n && mask & (1 << j) != 0 {
+            if with_bit.len() != 1 { return fail(sig, format!("{flat}: difficulty {j}: {} emitted instructions apply (expected exactly one)", with_bit.len())); }
+            let want_case = (0..=j).rev().map(|i| &cases[i]).find(|c| !matches!(c, Sexp::Atom(s) if s == "_")).expect("first case is never omitted").as_i64() as u32;
+            let mut want: Vec<i32> = vec![];
+            if let Some(b) = lead { want.push(b as i32); }
+            want.push(want_case as i32);
+            let got = blob_ints(with_bit[0]);
+            if got != want { return fail(sig, format!("{flat}: difficulty {j}: the instruction that applies (mask {:#04x}) carries bits {got:x?}, the switch selects {want:x?}", with_bit[0].difficulty)); }
+        } else if !with_bit.is_empty() {
+            return fail(sig, format!("{flat}: difficulty {j} is excluded (label / number of cases) but {} emitted instructions apply", with_bit.len()));
+        }
+    }
+    Sexp::app("pass", vec![Sexp::int(copies.len() as i64)])
+}
+
 // ---------------------------------------------------------------------------------------------
 // nested labels: a label applies to one statement (possibly a block); an unlabeled statement takes
 // the label of the innermost enclosing labeled block; no label anywhere = every difficulty.
@@ -418,7 +461,7 @@ fn swrt_case(lines: &Sexp, label: &Sexp, args: &[Sexp]) -> Sexp {
 // ---------------------------------------------------------------------------------------------
 // generators
 
-const NAME_POOL: &[u8] = b"ENHLXOFUabzZ0123456789";
+const NAME_POOL: &[u8] = b"ENHLXOFUabzZenhlAB0123456789";
 
 fn gen_lines(rng: &mut Rng) -> Vec<(i64, String)> {
     let n = rng.below(9);
@@ -539,7 +582,7 @@ impl Prop for C14 {
         "table: for all 256 masks, (mask_to_diff_label(m), parse_diff_string(label)) of the real DiffFlagDefs filled from a user mapfile == Lean (`Diff.label`, `Diff.parse`) on `applyLines defaultDefs`; parse: parse_diff_string == `Diff.parse` incl. error class; switch/assign: (difficulty byte, argument values) of the instructions the real TH06 ECL compiler emits for a statement with difficulty switches == Lean `Diff.expand` / `Diff.assignCopies`; unit: select_diff_switch_case / explicit_difficulty_cases / explicit_case_bitmasks == `selectCase` / `explicitCases` / `caseRanges`"
     }
     fn rule(&self) -> &'static str {
-        "tables: the bundled th06/th08 tables, all-default-on, interleaved aux/difficulty bits, random tables of 0-8 `!difficulty_flags` lines over 22 names (main stream: accepted tables; tables with a line naming a second bit with an existing name form the tagged stream `table-name-at-two-indices` and must be rejected with a diagnostic), malformed lines (index 8/-1, bad name, bad sign, wrong length, two-byte character); every table x all 256 masks (exhaustive in the mask).  parse: strings over the table's names, `+ - *`, unknown and invalid characters.  switch: 1-3 arguments, 1-3 switches of 2-8 cases with holes, under no label / `*` / random labels incl. `-aux`; separate streams for nested switches, mismatched lengths and 9 cases.  non-trivial = table or statement with at least one switch; distinct by case text"
+        "tables: the bundled th06/th08 tables, all-default-on, interleaved aux/difficulty bits, random tables of 0-8 `!difficulty_flags` lines over 28 names (with upper/lower-case pairs) (main stream: accepted tables; tables with a line naming a second bit with an existing name form the tagged stream `table-name-at-two-indices` and must be rejected with a diagnostic), malformed lines (index 8/-1, bad name, bad sign, wrong length, two-byte character); every table x all 256 masks (exhaustive in the mask).  parse: strings over the table's names, `+ - *`, unknown and invalid characters.  switch: 1-3 arguments, 1-3 switches of 2-8 cases with holes, under no label / `*` / random labels incl. `-aux`; separate streams for nested switches, mismatched lengths and 9 cases.  non-trivial = table or statement with at least one switch; distinct by case text"
     }
     fn theorems(&self) -> &'static [&'static str] {
         &["TruthModel.C14.label_parse", "TruthModel.C14.label_parse_mapfile", "TruthModel.C14.reachable_inv", "TruthModel.C14.defineFromMapfile_inv",
@@ -605,6 +648,18 @@ impl Prop for C14 {
             out.push(Case::search(Sexp::app("swspec", v.clone())).tag("swspec-nested"));
             if i % 5 == 0 { out.push(Case::search(Sexp::app("swrt", v)).tag("swrt-nested")); }
         }
+        for _ in 0..400 * scale {
+            // float cases, bit-exact; pools chosen so that neighbouring cases are often `==` as floats but different bits
+            let l = table_for_switch(rng);
+            let label = gen_label(rng, &l);
+            let pool: &[u32] = if rng.chance(2, 3) { &[0, 0x8000_0000, 0x3f80_0000, 0xbf80_0000] } else { &[0, 0x8000_0000, 0x3f80_0000, 0x3fc0_0000, 0x4040_0000, 0x7f80_0000, 0xff80_0000, 0x0000_0001, 0x8000_0001] };
+            let n = 2 + rng.below(7);
+            let mut cases = vec![];
+            for d in 0..n { if d > 0 && rng.chance(1, 4) { cases.push(Sexp::atom("_")); } else { cases.push(Sexp::int(*rng.pick(pool) as i64)); } }
+            let lead = if rng.chance(1, 3) { Sexp::int(*rng.pick(pool) as i64) } else { Sexp::atom("none") };
+            let mut v = vec![lines_sexp(&l), label, lead]; v.extend(cases);
+            out.push(Case::search(Sexp::app("swfloat", v)).tag("swfloat"));
+        }
         for _ in 0..60 * scale {
             // malformed: two switch lengths in one statement, or nine cases
             let l = table_for_switch(rng);
@@ -659,6 +714,7 @@ impl Prop for C14 {
             Some("unit") => unit_case(a),
             Some("file") => file_case(&a[0]),
             Some("swspec") => swspec_case(&a[0], &a[1], &a[2..]),
+            Some("swfloat") => swfloat_case(&a[0], &a[1], match &a[2] { Sexp::Atom(s) if s == "none" => None, x => Some(x.as_i64() as u32) }, &a[3..]),
             Some("swrt") => swrt_case(&a[0], &a[1], &a[2..]),
             Some("nestlab") => nestlab_case(&a[0], &a[1..]),
             _ => Sexp::atom("bad-case"),
